@@ -12,8 +12,8 @@ EXTENDS Steps, TLC, Json, IOUtils
 
 Traces == JsonDeserialize(IOEnv.TRACE_FILE)      \* Seq([init: state, events: Seq(event)])
 
-VARIABLES tid, l
-tvars == <<tid, l>>
+VARIABLES tid, l, memo        \* memo: C11 - results of read-only calls since the last mutating call
+tvars == <<tid, l, memo>>
 
 Load(s) == [s EXCEPT !.ns = [n \in DOMAIN s.ns |-> Range(s.ns[n])], !.store = Range(s.store)]
 PreOf(t, k) == Load(IF k = 1 THEN Traces[t].init ELSE Traces[t].events[k-1].post)
@@ -107,13 +107,22 @@ Clauses(t, k) ==
          \cup (IF Size(post) = Size(exp.st) THEN {} ELSE {"size"})
          \cup (IF NoSharing(post.kids) /\ Acyclic(post.kids) THEN {} ELSE {"forest"})
 
-Judge(t, k) == LET c == Clauses(t, k) IN
+
+(* C11: since the last mutating call, equal read-only calls give equal results ("results do not
+   depend on which of these ran before") *)
+IsRO(e) == e.op = "readonly"
+MemoClash(e) == IsRO(e) /\ e.fn \in DOMAIN memo /\ memo[e.fn] # e.res
+MemoNext(e) == IF ~IsRO(e) THEN <<>>
+               ELSE IF e.fn \in DOMAIN memo THEN memo ELSE memo @@ (e.fn :> e.res)
+
+Judge(t, k) == LET c == Clauses(t, k) \cup (IF MemoClash(Traces[t].events[k]) THEN {"result-depends-on-what-ran-before"} ELSE {}) IN
                IF c = {} THEN TRUE ELSE PrintT(ToJson([k |-> "REJECT", trace |-> t, event |-> k, clauses |-> c]))
 
-Init == tid = 1 /\ l = 0
+Init == tid = 1 /\ l = 0 /\ memo = <<>>
 Next == \/ /\ tid <= Len(Traces) /\ l < Len(Traces[tid].events)
            /\ Judge(tid, l + 1) /\ l' = l + 1 /\ tid' = tid
-        \/ /\ tid <= Len(Traces) /\ l = Len(Traces[tid].events) /\ tid' = tid + 1 /\ l' = 0
+           /\ memo' = MemoNext(Traces[tid].events[l + 1])
+        \/ /\ tid <= Len(Traces) /\ l = Len(Traces[tid].events) /\ tid' = tid + 1 /\ l' = 0 /\ memo' = <<>>
 TraceSpec == Init /\ [][Next]_tvars
 
 RECURSIVE Total(_)
